@@ -100,6 +100,7 @@ def instantiate_abstract(I, st, fv, pos, kws, node, opaque_kwargs):
 # ----------------------------------------------------------------------- context managers
 
 def cm_enter(I, st, cm, node):
+    from . import oslib  # noqa: F401  (registers the OS models)
     if isinstance(cm, Ref) and isinstance(st.heap.get(cm.id), ObjVal):
         o = st.heap[cm.id]
         if o.cls.startswith("ext:"):
@@ -284,10 +285,6 @@ def _getattr(I, st, pos, kws, node):
     return L.getattr_(I, st, obj, name.s, node)
 
 
-@libfn("builtins.open")
-def _open(I, st, pos, kws, node):
-    return I.specs.os_model.open(I, st, pos, kws, node)
-
 
 @libfn("builtins.print")
 def _print(I, st, pos, kws, node):
@@ -309,10 +306,10 @@ def _noop(I, st, pos, kws, node):
 
 @libfn("logging.getLogger")
 def _getlogger(I, st, pos, kws, node):
-    return [(st, st.alloc(ObjVal("ext:logging.Logger", {})))]
+    return [(st, AnyV("logger"))]
 
 
-@method("logging.Logger.info", "logging.Logger.warning", "logging.Logger.debug")
+@method("logging.Logger.info", "logging.Logger.warning", "logging.Logger.debug", "any.info", "any.warning", "any.debug")
 def _loginfo(I, st, selfv, pos, kws, node):
     return [(st, NONE)]
 
@@ -1142,7 +1139,8 @@ def _spline_call(I, st, selfv, pos, kws, node):
 
 @libfn("numpy.loadtxt")
 def _np_loadtxt(I, st, pos, kws, node):
-    return I.specs.os_model.loadtxt(I, st, pos, kws, node)
+    from . import oslib
+    return oslib.np_loadtxt(I, st, pos, kws, node)
 
 
 # =========================================================================== stdlib (assumed contracts)
